@@ -195,5 +195,10 @@ ItNext(S, it) == IF it.f < it.b THEN [it EXCEPT !.f = @ + 1] ELSE it
 ItBackOut(S, it) == IF it.f < it.b THEN S[it.b] ELSE NONE
 ItBack(S, it) == IF it.f < it.b THEN [it EXCEPT !.b = @ - 1] ELSE it
 ItLen(it) == it.b - it.f
+\* nth(k) / nth_back(k): skip k elements, yield the next one; exhausted when fewer than k + 1 are left
+ItNthOut(S, it, k) == IF it.f + k < it.b THEN S[it.f + k + 1] ELSE NONE
+ItNth(S, it, k) == IF it.f + k < it.b THEN [it EXCEPT !.f = @ + k + 1] ELSE [it EXCEPT !.f = it.b]
+ItNthBackOut(S, it, k) == IF it.f + k < it.b THEN S[it.b - k] ELSE NONE
+ItNthBack(S, it, k) == IF it.f + k < it.b THEN [it EXCEPT !.b = @ - k - 1] ELSE [it EXCEPT !.b = it.f]
 
 ============================================================================
